@@ -71,6 +71,10 @@ claimed = {
    text="Decides from source: no writer call inside a range over a map and every slice filled from a map is sorted before being iterated, in everything reachable from Message.Write (canonical header order); terminators written equal the one the reader accepts, header line shapes, Mid first and only once; Body/File headers carry the lengths of the stored body / appended attachment data; Q-encoding labels equal the transcoding charset at every site; SetDate writes UTC in the first layout ParseDate tries and Write refuses unparsable dates before writing. Does not decide round-trip equality over all messages (special characters, trimming, address normalisation).",
    technique="syntax/SSA discipline rules over the call-graph closure of the serialiser; writer/reader sibling agreement on constants; data-dependence of size headers",
    ref="DESIGN.md section 4, C09"),
+ "C13": dict(
+   text="Decides from source for package agwpe: every constructor parameter reaches the returned frame, constructors set the kind of the AGWPE table, call sites pass the owning port; packed header layout (36 bytes, field offsets), little-endian, kind letters, PID 0xF0, DataLen = len(data); no single raw Read for a fixed-length field; no frame is handed over with a non-blocking send (the one in demux.Enqueue is a recorded known finding; any other site is reported); Conn.Read returns the copy count, keeps and first serves the remainder; Conn.Write sends one data frame with the connection's port/callsigns/bytes and reports len(p); every answer subscription precedes its request, waits for exactly the table's answer kinds and every wait follows the write; connection/port demux filters and the filter predicate; crash-site inventory from all entry points of the driver (two panics excepted with reasons tied to other rules). Does not decide end-to-end stream equality under all segmentations/schedules nor liveness of the demux.",
+   technique="constructor parameter-flow and table checks, struct layout from types, select/send classification on SSA, request/response ordering by dominance, crash-site inventory with compiler BCE proofs and difference-bound facts",
+   ref="DESIGN.md section 4, C13"),
 }
 
 not_applicable = {
